@@ -215,4 +215,45 @@ example (k : Nat) : EncLinear (fun row => row) k 512 where
     intro row _ _ j b _
     simp [Matrix.one_apply]
 
+/-- **Joint non-vacuity at k = 1**: the repetition code (Reed–Solomon for one data symbol) with the decoder "copy the
+    symbol that is present" satisfies `EncShape`, `EncLinear` AND `MDS` together.  (For k ≥ 2 the repetition code is not
+    MDS; a joint witness there needs genuine GF(2^8) arithmetic on bytes — see design_notes/C08.md, audit response.) -/
+def recK1 (l : List Bytes) : List Bytes :=
+  match l with
+  | [a, b] => if a.isEmpty then [b, b] else [a, a]
+  | _ => l
+
+theorem joint_witness_k1 :
+    EncShape (fun row => row) 1 ∧ Nonempty (EncLinear (fun row => row) 1 512) ∧ MDS (fun row => row) recK1 1 := by
+  have L : EncLinear (fun row : List Bytes => row) 1 512 :=
+    { F := Nat
+      toF := UInt8.toNat
+      toF_inj := fun a b h => UInt8.toNat_inj.mp h
+      M := 1
+      shape := fun _ h1 h2 => ⟨h1, h2⟩
+      spec := by
+        intro row _ _ j b _
+        have hj : j = 0 := Fin.eq_zero j
+        subst hj
+        simp [Matrix.one_apply] }
+  refine ⟨fun _ h => h, ⟨L⟩, ?_⟩
+  intro cw hcw hsz mask hml hpres
+  obtain ⟨hlen, hdrop⟩ := hcw
+  match cw, hlen with
+  | [a, b], _ =>
+    have hb : b = a := by
+      simp only [List.drop_succ_cons, List.drop_zero, List.take_succ_cons, List.take_zero, List.cons.injEq, and_true] at hdrop
+      exact hdrop
+    have hne : a.isEmpty = false := by
+      have := hsz a (by simp)
+      cases ha : a with
+      | nil => rw [ha] at this; simp at this
+      | cons x xs => rfl
+    rw [hb]
+    match mask, hml with
+    | [true, true], _ => simp [erase, recK1, hne]
+    | [true, false], _ => simp [erase, recK1, hne]
+    | [false, true], _ => simp [erase, recK1]
+    | [false, false], _ => simp at hpres
+
 end Lumina.Props.C08
